@@ -7,6 +7,8 @@ open Repe Repe.Driver
 
 structure St where
   mode : OvMode := .checks
+  /-- frames of the `msg` ops since the last `sink` op (what one persistent sink must have received) -/
+  frames : List Bytes := []
 
 def headerOfWords (ws : List String) : Option Header :=
   match ws.map natOf with
@@ -68,25 +70,75 @@ def step (st : St) (ws : List String) : St × String :=
       | some q, some b =>
         let m : Message := ⟨h, q, b⟩
         let r := m.toVec
-        (st, joinSp [idx, hexOfBytes r, same r m.writeTo, same r (m.intoWireBytes (natOf cap)),
-              same r m.writeTo, same r m.writeTo,
+        ({ st with frames := r :: st.frames },
+         joinSp [idx, hexOfBytes r, same r (emitParts Gen.writeToParts m), same r (m.intoWireBytes (natOf cap)),
+              same r (emitParts Gen.writeMessageParts m), same r (emitParts Gen.writeMessageAsyncParts m),
               hexOfBytes (writeMessageStreaming h q b)])
       | _, _ => (st, idx ++ " bad-op")
     | _, _ => (st, idx ++ " bad-op")
-  | ["build", idx, id, notify, ec, qf, bf, q, b] =>
+  | "build" :: idx :: id :: notify :: ec :: qf :: bf :: q :: b :: _order =>
+    -- optional 10th token: order / choice of the builder's setters (the frame is a function of the seven values)
     match bytesOfHex q, bytesOfHex b with
     | some q, some b =>
       let m := (Builder.mk (natOf id) (notify = "1") (natOf ec) (natOf qf) (natOf bf) q b).build
       (st, joinSp [idx, hexOfBytes m.toVec])
     | _, _ => (st, idx ++ " bad-op")
-  | ["net", idx, _ep, _h] =>
+  | ["sink", idx] =>
+    -- everything written to one persistent sink since the last `sink`: the frames, in order, nothing else
+    let all := st.frames.reverse.flatten
+    ({ st with frames := [] }, s!"{idx} n={st.frames.length} {all.length}:{hex16 (fnv64 all)}")
+  | "new" :: idx :: rest =>
+    match headerOfWords (rest.take 11), (rest.drop 11) with
+    | some h, [q, b] =>
+      match bytesOfHex q, bytesOfHex b with
+      | some q, some b =>
+        let m : Message := ⟨h, q, b⟩
+        (st, joinSp [idx, showOut (fun _ => "new") (Message.new h q b), toString m.serializedLen])
+      | _, _ => (st, idx ++ " bad-op")
+    | _, _ => (st, idx ++ " bad-op")
+  | ["errmsg", idx, code, msg] =>
+    match bytesOfHex msg with
+    | some msg => (st, joinSp [idx, hexOfBytes (wireErrorMessage (natOf code) msg).toVec])
+    | none => (st, idx ++ " bad-op")
+  | "errlike" :: idx :: reqId :: reqQ :: code :: msg :: _staleDeclaredLengths =>
+    match bytesOfHex reqQ, bytesOfHex msg with
+    | some q, some msg => (st, joinSp [idx, hexOfBytes (createErrorResponseLike (natOf reqId) q (natOf code) msg).toVec])
+    | _, _ => (st, idx ++ " bad-op")
+  | "resp" :: idx :: reqId :: reqQf :: reqQ :: bf :: body :: _value =>
+    match bytesOfHex reqQ, bytesOfHex body with
+    | some q, some body =>
+      (st, joinSp [idx, hexOfBytes (createResponse (natOf reqId) (natOf reqQf) q (natOf bf) body).toVec])
+    | _, _ => (st, idx ++ " bad-op")
+  | "cb" :: idx :: _ =>
+    -- body callbacks that err / panic / are slow / re-enter: the property is silent about failing callbacks; the
+    -- harness asserts the slow and re-entrant ones directly
+    (st, idx ++ " ran")
+  | "twin" :: idx :: _ =>
+    -- documented twins compared by the harness (typed/complex slice writers vs builder + write_message)
+    (st, idx ++ " =")
+  | "readm" :: idx :: kind :: _frag :: streams =>
+    -- ONE reused buffer / reader over several streams in a row (a stream may end in an error): each stream is
+    -- read as if the buffer were fresh
+    let hf := Gen.headerSumForm
+    let reader : Option (Bytes → WOut Bytes) :=
+      if kind = "0" then some (fun s => (readMessage hf Gen.readAlloc st.mode s).map Message.toVec)
+      else if kind = "2" then some (fun s => (readMessage hf Gen.asyncReadAlloc st.mode s).map Message.toVec)
+      else if kind = "1" then some (readMessageInto hf Gen.readIntoSumForm Gen.readIntoAlloc st.mode)
+      else if kind = "3" then some (readMessageInto hf Gen.asyncReadIntoSumForm Gen.asyncReadIntoAlloc st.mode)
+      else none
+    match reader, streams.mapM bytesOfHex with
+    | some rd, some ss => (st, idx ++ " " ++ " | ".intercalate (ss.map (readAll rd)))
+    | _, _ => (st, idx ++ " bad-op")
+  | "net" :: idx :: _ep :: _h :: _pre =>
     -- hostile bytes against a real endpoint: the model's prediction is C02's totality — the endpoint survives
     (st, idx ++ " survived")
   | ["hdr", idx, h] =>
     match bytesOfHex h with
     | some bs => (st, idx ++ " " ++ showOut showHeader (Header.decode Gen.headerSumForm st.mode bs))
     | none => (st, idx ++ " bad-op")
-  | [op, idx, h] =>
+  | op :: idx :: h :: fragTok =>
+    -- optional 4th token: how the harness fragments the stream for the reader (the prediction does not depend on it)
+    if fragTok.length > 1 then (st, idx ++ " bad-op") else
     match bytesOfHex h with
     | none => (st, idx ++ " bad-op")
     | some bs =>
